@@ -299,6 +299,7 @@ theorem step_cookie (n : Node C D) (op : Op D) : (step H n op).1.cookie = n.cook
   | input k env i =>
     simp only [step]
     split <;> rfl
+  | deauth ks => rfl
 
 omit [DecidableEq D] in
 theorem presents_digest {cookie : C} {a : AuthSt D} {i : In D} (h : presents H cookie a i) :
@@ -331,6 +332,7 @@ theorem inv_step (n : Node C D) (op : Op D) (h : Inv H n) : Inv H (step H n op).
         have := (handle_facts H cfg st env i).wf (by rw [hc]; exact hw)
         rw [hc] at this
         exact this
+  | deauth ks => exact h
 
 theorem inv_nodeAfter (ops : List (Op D)) : ∀ n : Node C D, Inv H n → Inv H (nodeAfter H n ops) := by
   induction ops with
@@ -353,6 +355,65 @@ theorem legal_split (cookie' : C) (pre : List (Op D)) : ∀ (n : Node C D) (op :
 omit [DecidableEq D] in
 theorem empty_inv (cookie : C) : Inv H (empty cookie : Node C D) := by
   intro p hp; simp [empty] at hp
+
+/-- every session `GetSessions` lists exists and has completed the handshake -/
+def ListedOk (n : Node C D) : Prop :=
+  ∀ k ∈ n.listed, ∃ cfg st, n.sessions[k]? = some (cfg, st) ∧ st.auth.isOk = true
+
+theorem listedOk_step (n : Node C D) (op : Op D) (h : ListedOk n) : ListedOk (step H n op).1 := by
+  cases op with
+  | «open» a b c d e =>
+    intro k hk
+    obtain ⟨cfg, st, h1, h2⟩ := h k hk
+    refine ⟨cfg, st, ?_, h2⟩
+    simp only [step]
+    have hlt : k < n.sessions.length := by
+      rcases Nat.lt_or_ge k n.sessions.length with hlt | hge
+      · exact hlt
+      · rw [List.getElem?_eq_none hge] at h1; exact absurd h1 (by simp)
+    rw [List.getElem?_append_left hlt]; exact h1
+  | deauth ks =>
+    intro k hk
+    simp only [step, List.mem_filter] at hk
+    exact h k hk.1
+  | input j env i =>
+    simp only [step]
+    split
+    · exact h
+    · rename_i cfg st hj
+      have f := handle_facts H cfg st env i
+      have hjlt : j < n.sessions.length := by
+        rcases Nat.lt_or_ge j n.sessions.length with hlt | hge
+        · exact hlt
+        · rw [List.getElem?_eq_none hge] at hj; exact absurd hj (by simp)
+      -- sessions listed before stay authenticated (`okStable`), and exist
+      have old : ∀ k ∈ n.listed, ∃ cfg' st', (n.sessions.set j (cfg, (handle H cfg st env i).1))[k]? = some (cfg', st') ∧
+          st'.auth.isOk = true := by
+        intro k hk
+        obtain ⟨cfg', st', h1, h2⟩ := h k hk
+        by_cases hkj : j = k
+        · subst hkj
+          rw [hj] at h1
+          obtain ⟨rfl, rfl⟩ := Prod.mk.inj (Option.some.inj h1)
+          exact ⟨cfg, _, by simp [List.getElem?_set, hjlt], f.okStable h2⟩
+        · exact ⟨cfg', st', by rw [List.getElem?_set_ne hkj]; exact h1, h2⟩
+      intro k hk
+      simp only at hk
+      split at hk
+      · rename_i hc
+        rcases List.mem_append.mp hk with hk | hk
+        · exact old k hk
+        · simp only [List.mem_singleton] at hk
+          subst hk
+          have hmem : Effect.authenticated ∈ (handle H cfg st env i).2 := by
+            simpa using hc
+          exact ⟨cfg, _, by simp [List.getElem?_set, hjlt], f.gate _ hmem rfl⟩
+      · exact old k hk
+
+theorem listedOk_nodeAfter (ops : List (Op D)) : ∀ n : Node C D, ListedOk n → ListedOk (nodeAfter H n ops) := by
+  induction ops with
+  | nil => intro n h; exact h
+  | cons op rest ih => intro n h; exact ih _ (listedOk_step H n op h)
 
 /-- the invariant of the `_partial` theorem: nobody is authenticated, nothing was disclosed -/
 def Quiet (n : Node C D) : Prop :=
@@ -405,6 +466,7 @@ theorem quiet_step (cookie' : C) (n : Node C D) (op : Op D)
             rcases handle_digest H cfg st env i e he d hd with h | h
             · rw [hstill] at h; exact absurd h.2 (by simp)
             · simp [noServerChallenge, h] at hns
+    | deauth ks => exact ⟨hnok, hseen⟩
   · cases op with
     | «open» a b c d e => intro e he; simp [step] at he
     | input k env i =>
@@ -427,6 +489,7 @@ theorem quiet_step (cookie' : C) (n : Node C D) (op : Op D)
           rcases this with h | ⟨c', hc'⟩
           · simp at h
           · exact absurd (by rw [← hc', hdc, hc]) (hsep c c')
+    | deauth ks => intro e he; simp [step] at he
 
 end
 
